@@ -167,6 +167,24 @@ def gen_lines(rng, n):
     return q, r
 
 
+def compare_lines(rng):
+    """every comparison operator between every pair of a small set of comparable values (equal strings, adjacent strings, equal and adjacent
+    numbers, mixed kinds), with the member on either side of the operator"""
+    out = []
+    vals = [b"abb", b"abc", b"abd", b"", b"a", b"B", b"10", b"9", 0, 1, 2, 10, -1, None, True, False]
+    doc = [Obj([(b"k", v), (b"id", i)]) for i, v in enumerate(vals)] + [Obj([(b"id", 99)])]
+    d = wire.render(doc)
+    ds = wire.render(wire.sort_keys(doc))
+    for lit in vals:
+        for op in jpath.CMPS:
+            member = ("P", False, [("n", b"k")])
+            for fe in ((op, member, ("L", lit)), (op, ("L", lit), member)):
+                segs = [("C", [("F", fe)])]
+                kind = rng.choice("jo")
+                out.append("jp q %s %s %s | %s | %s" % (kind, rng.choice(OPTS), jpath.text(rng, segs).hex(), ds if kind == "j" else d, jpath.tokens(segs)))
+    return out
+
+
 def slice_lines(rng, scale):
     """every start/stop/step from a boundary set on arrays of length 0..6, alone and chained/in unions with a second slice"""
     out = []
@@ -200,6 +218,7 @@ def streams(ctx, rng, scale):
     ctx.correspond("queries", HARNESS, q, query_oracle, nontrivial, compare=compare_any)
     ctx.correspond("json-replace", HARNESS, r, replace_oracle, nontrivial, compare=compare_any)
     ctx.correspond("slices", HARNESS, slice_lines(rng, scale), query_oracle, nontrivial, compare=compare_any)
+    ctx.correspond("filter-comparisons", HARNESS, compare_lines(rng), query_oracle, nontrivial, compare=compare_any)
 
 
 def run(ctx):
